@@ -31,6 +31,9 @@ type Obligation struct {
 	Path       string  `json:"path,omitempty"`
 	Nontrivial bool    `json:"nontrivial"`
 	Known      string  `json:"known_finding,omitempty"`
+	// Related: other functions the verdict depends on (the sibling a computation is compared with); a failing
+	// obligation is retried on the normal forms of these functions as well
+	Related []string `json:"related,omitempty"`
 }
 
 func (o Obligation) Key() string { return o.Rule + "|" + o.Func + "|" + o.Construct }
@@ -102,6 +105,13 @@ func (c *Ctx) check(cond bool, fn, construct, pos, okDetail, badDetail string) b
 }
 
 func (c *Ctx) count(name string, n int) { c.Counters[name] += n }
+
+// relate names another function the obligation just recorded depends on.
+func (c *Ctx) relate(fn string) {
+	if n := len(c.Obls); n > 0 && fn != "" {
+		c.Obls[n-1].Related = append(c.Obls[n-1].Related, fn)
+	}
+}
 
 // ---------------------------------------------------------------------------
 // known findings
